@@ -5,6 +5,7 @@ EXTENDS Store
 
 TTLsSmall == {0, 1, -1}
 TTLsWide  == {0, 1, 2, -1, -2}
+TTLsJan   == {0, 2, -1, -5}    \* real-clock runs: fresh / just expired / expired longer than DeleteExpiredAfter
 
 HashInj  == [k \in Keys |-> k]
 (* k1 and k2 share a slot (hash collision), all other keys have their own.  *)
